@@ -33,7 +33,8 @@ CLAIMED = {
             'for ALL real x; for every enumerated shape, for ALL x and ALL sign patterns, the rotation preserves the norm and '
             'the inverse with the same key restores x in its original shape; different key terms give independent signs.',
             'floats read as reals; 1/sqrt(d) de-rounded to the algebraic constant; lengths 2^9..2^14 not claimed; real jitted '
-            'entry point additionally called concretely per configuration',
+            'entry point additionally called concretely per configuration; acceptance of every valid (length, block) pair up to 2^14 x 2^8 '
+            'by abstract evaluation (no solver); caller-owned arrays stay valid: donation dataflow + concrete confirmation',
             'DESIGN.md C18'),
     'C14': ('J', 'symbolic execution of every Metric.evaluate_example (jaxpr -> z3; sort as compare-exchange network, argmax, '
                  'one-hot, scatter), equality with first-principles definitions written directly in z3',
@@ -51,7 +52,8 @@ CLAIMED = {
             'sum(accum)/sum(weight) over the unmasked rows (0 and finite when none); merge is associative/commutative with zero '
             'identity for ALL stats in the domain.',
             'single-example statistics are the real evaluate_example traced per row (C14 ties them to definitions); rows <= 4, '
-            'classes 3, sequence length 2; float non-associativity outside the claim',
+            'classes 3, sequence length 2; float non-associativity outside the claim; padding rows whose own statistic is +inf are included; '
+            'the history clause (jit trace cache shared by sibling metrics / models) is exercised only by an auxiliary concrete run',
             'DESIGN.md C05'),
     'C06': ('J', 'symbolic execution of fedjax.grad (real jax.grad through an uninterpreted differentiable loss and a quadratic '
                  'loss), average-loss evaluators, Mime full-batch gradient pass and agnostic per-domain sums over real padded_batch '
@@ -69,8 +71,9 @@ CLAIMED = {
             'Bounded symbolic check: for each algorithm (2 clients, 2 rounds, momentum optimizers) z3 shows the outputs of two '
             'identical calls are equal for ALL parameter/data/key values, the argument state keeps its container structure and '
             'leaf identities, no leaf of the caller\'s state sits at a donated jit position; aggregator keys advance every round.',
-            'pickle round trip not claimed; arithmetic-coding encoder only in the auxiliary concrete run; hidden Python state is '
-            'seen only if it changes a repeated call',
+            'serialise-and-continue clause only by an auxiliary concrete run (real save_state/load_state, weak types, bfloat16); '
+            'arithmetic-coding encoder only in the auxiliary concrete run; hidden Python state is seen if it changes a repeated call '
+            'or the call on a fresh algorithm object',
             'DESIGN.md C10'),
     'C12': ('J', 'symbolic execution of FedProx/HypCluster/MimeLite/Mime/APFL apply and equality, coordinate by coordinate, with '
                  'the definition of a FedAvg round instantiated with the gradient named in the statement',
